@@ -193,7 +193,7 @@ func c18Tree(profile string, seed int64, thorough bool) *tNode {
 		if thorough {
 			depth = 40 + r.Intn(120)
 		}
-		if r.Intn(4) == 0 {
+		if seed&(1<<62) != 0 { // set by the generator for the first tree of the profile
 			depth = 129 + r.Intn(60) // deeper than any round number a tool might pick as "deep enough" (PATH_MAX is far away)
 		}
 		cur := root
@@ -717,6 +717,9 @@ func runC18(t *mon.T, raw json.RawMessage) {
 	if st["depth"] >= 15 {
 		t.Cover("trees-with:depth>=15")
 	}
+	if st["depth"] >= 129 {
+		t.Cover("trees-with:depth>=129")
+	}
 	if st["file"]+st["dir"]+st["symlink"] >= 100 {
 		t.Cover("trees-with:>=100-entries")
 	}
@@ -774,7 +777,10 @@ func genC18(g *mon.G) {
 			if n == 0 {
 				continue
 			}
-			seed := r.Int63()
+			seed := r.Int63() &^ (1 << 62)
+			if i == 0 {
+				seed |= 1 << 62 // "deep nesting": this tree is more than 128 levels deep
+			}
 			g.Emit(c18Desc{Seed: seed, Profile: p, Version: 2, Implied: i%2 == 0, Form: "wrap"})
 			g.Emit(c18Desc{Seed: seed, Profile: p, Version: 1, Form: "wrap"})
 			g.Emit(c18Desc{Seed: seed, Profile: p, Version: 2, Form: "no-wrap"})
@@ -804,7 +810,7 @@ func init() {
 		},
 		Gen: genC18, Run: runC18,
 		MinCover: map[string]int{
-			"create:wrap": 40, "create:archive-path-holds-an-empty-file": 20, "create:spelling:trailing-separator": 10, "create:spelling:--no-wrap=false": 10, "create:no-wrap": 40, "create:several": 15, "create:dot": 15, "create:version-1": 60, "create:version-2": 60,
+			"create:wrap": 40, "trees-with:depth>=129": 2, "create:archive-path-holds-an-empty-file": 20, "create:spelling:trailing-separator": 10, "create:spelling:--no-wrap=false": 10, "create:no-wrap": 40, "create:several": 15, "create:dot": 15, "create:version-1": 60, "create:version-2": 60,
 			"archive:carv1": 60, "archive:carv2": 60, "root-agrees": 150,
 			"extract:-f": 150, "extract:-f . (into the current directory)": 150, "extract:-f (older, longer files already in place)": 150, "extract:-f (output directory below a symlinked directory)": 150, "extract:stdin (pipe)": 150, "extract:stdin (socket)": 150, "extract:stdin (file)": 150,
 			"tree-reproduced:-f": 100, "tree-reproduced:stdin (pipe)": 50, "tree-reproduced:stdin (file)": 100,
